@@ -311,7 +311,7 @@ func judge(m snapMeta, E [][]byte, D [][]byte) (sig, msg string, at int) {
 
 // childReopen: reopen snapshots start.. in order, write verdict lines.
 func childReopen(root string, start, end int) {
-	dq.OpenWatchdog = 10 * time.Second
+	dq.OpenWatchdog = 6 * time.Second
 	out, err := os.OpenFile(filepath.Join(root, "verdicts.jsonl"), os.O_CREATE|os.O_WRONLY|os.O_APPEND, 0644)
 	if err != nil {
 		panic(err)
@@ -330,7 +330,7 @@ func childReopen(root string, start, end int) {
 		out.Write(append(b, '\n'))
 		if v.Sig != "" {
 			bad++
-			if bad >= 12 {
+			if bad >= 4 {
 				break // enough witnesses from this history
 			}
 		}
@@ -357,7 +357,7 @@ func reopenOne(m snapMeta, dir string) verdict {
 	if err != nil {
 		// confirm: still no idle point a while later, same goroutine parked
 		st1 := stacks()
-		time.Sleep(3 * time.Second)
+		time.Sleep(2 * time.Second)
 		if dq.H.Seq() == seq0 {
 			return verdict{Sig: "reopen-hang", Msg: "reopened queue never reached its idle point (no progress in two samples)\n" + trimStack(st1)}
 		}
@@ -507,8 +507,8 @@ func judgeSnapshots(res *mon.Result, c hcase, root string, metas []snapMeta) {
 	start := 0
 	bad0 := res.NumViolations()
 	for start < len(metas) {
-		if res.NumViolations()-bad0 >= 12 {
-			res.Count("crash_points_skipped_after_12_violations_in_history", len(metas)-start)
+		if res.NumViolations()-bad0 >= 4 {
+			res.Count("crash_points_skipped_after_4_violations_in_history", len(metas)-start)
 			return
 		}
 		os.Remove(filepath.Join(root, "verdicts.jsonl"))
@@ -619,6 +619,10 @@ func main() {
 		if o := os.Getenv("VERIF_ONLY"); o != "" && o != fmt.Sprint(i) {
 			continue
 		}
+		if res.NumViolations() >= 16 {
+			res.Count("histories_skipped_after_16_violations", 1)
+			continue // the run has failed already; more witnesses only cost time
+		}
 		c := gen(mon.Seed(), i)
 		res.LogCase("history %d max=%d sync=%d ops=%s", i, c.MaxBytes, c.SyncEvery, c.compact())
 		root := filepath.Join(scratch, "snap")
@@ -641,6 +645,9 @@ func main() {
 	nk := mon.N(24, 1000)
 	for i := 0; i < nk; i++ {
 		if !mon.Mine(i) || os.Getenv("VERIF_ONLY") != "" {
+			continue
+		}
+		if res.NumViolations() >= 16 {
 			continue
 		}
 		idx := i % n
